@@ -1074,6 +1074,7 @@ pub fn corr(run: &mut Run) {
         run.count(&format!("probe:vector_get-constant-index-out-of-range:{}", what));
         run.notes.push(format!("probe: meta pass on vector_get(create_vector(i,i), constant 5) ends with: {} (run-time error graph; outside C06)", what));
     }
+    run.rule.push_str(" M: hand-built contexts with 2-3 independent graphs whose main graph is not the last: optimize_context must keep the main graph (value, input name).");
     stream_multi_graph(run);
 }
 
